@@ -60,14 +60,15 @@ func (c *CE) String() string {
 }
 
 type Clause struct {
-	Kind  string // requires ensures invariant lemma axiom ...
-	Expr  *CE
-	Props []string // property tags; empty = all properties the function serves
-	Text  string
-	N     int    // ordinal within its kind (1-based)
-	Label string // optional name
-	Pkg   string // package scope (lemmas / axioms)
-	Assumed bool // trusted_ensures: assumed at call sites, NOT checked against the body (listed in the trusted base)
+	Kind      string // requires ensures invariant lemma axiom ...
+	Expr      *CE
+	Props     []string // property tags; empty = all properties the function serves
+	Text      string
+	N         int    // ordinal within its kind (1-based)
+	Label     string // optional name
+	Pkg       string // package scope (lemmas / axioms)
+	Assumed   bool   // trusted_ensures: assumed at call sites, NOT checked against the body (listed in the trusted base)
+	CheckOnly bool   // checks: checked against the body, never assumed at call sites
 }
 
 type GhostAssign struct {
@@ -87,24 +88,25 @@ type Contract struct {
 	Results  []string
 	Extern   bool
 
-	Requires   []*Clause
-	Ensures    []*Clause
-	PanicEns   []*Clause // hold on the panic exit (for callers with recover)
-	Modifies   []string
-	ModAll     bool
-	Invariants map[int][]*Clause
-	Decreases  map[int]*CE
-	Unroll     map[int]int
-	NoPanic    bool
-	NoPanicProps []string
-	PanicsOnly *CE // panics only if P (nopanic under !P)
-	IntsBV     bool
-	Pure       bool // no heap effect, deterministic: callers may treat as function of args (+heap)
-	Serves     []string
-	GhostEntry []GhostAssign
-	GhostExit  []GhostAssign
-	Inline     bool
-	Opts       map[string]string
+	Requires       []*Clause
+	Ensures        []*Clause
+	PanicEns       []*Clause // hold on the panic exit (for callers with recover)
+	Modifies       []string
+	ModAll         bool
+	Invariants     map[int][]*Clause
+	Decreases      map[int]*CE
+	Unroll         map[int]int
+	NoPanic        bool
+	NoPanicProps   []string
+	NoPanicTrusted bool
+	PanicsOnly     *CE // panics only if P (nopanic under !P)
+	IntsBV         bool
+	Pure           bool // no heap effect, deterministic: callers may treat as function of args (+heap)
+	Serves         []string
+	GhostEntry     []GhostAssign
+	GhostExit      []GhostAssign
+	Inline         bool
+	Opts           map[string]string
 }
 
 type SpecFunc struct {
@@ -137,7 +139,7 @@ type SpecFile struct {
 }
 
 var clauseKW = map[string]bool{
-	"func": true, "extern": true, "requires": true, "ensures": true, "panic_ensures": true, "trusted_ensures": true, "modifies": true,
+	"func": true, "extern": true, "trusted_nopanic": true, "requires": true, "ensures": true, "checks": true, "panic_ensures": true, "trusted_ensures": true, "modifies": true,
 	"invariant": true, "decreases": true, "unroll": true, "nopanic": true, "maypanic": true, "panics_only_if": true,
 	"ints": true, "pure": true, "serves": true, "ghost": true, "ghost_entry": true, "ghost_exit": true,
 	"axiom": true, "lemma": true, "const": true, "smt": true, "package": true, "inline": true, "opt": true,
@@ -276,7 +278,7 @@ func parseSpecFile(path string, goFile bool, defaultPkg string) (*SpecFile, erro
 				Invariants: map[int][]*Clause{}, Decreases: map[int]*CE{}, Unroll: map[int]int{}, Opts: map[string]string{}}
 			sf.Contracts = append(sf.Contracts, cur)
 			counts = map[string]int{}
-		case "requires", "ensures", "panic_ensures", "invariant", "trusted_ensures":
+		case "requires", "ensures", "panic_ensures", "invariant", "trusted_ensures", "checks":
 			if cur == nil {
 				return nil, fail(cl, fmt.Errorf("clause outside function"))
 			}
@@ -294,6 +296,12 @@ func parseSpecFile(path string, goFile bool, defaultPkg string) (*SpecFile, erro
 			}
 			counts[ck]++
 			c := &Clause{Kind: kw, Expr: e, Props: props, Text: rest, N: counts[ck], Label: label}
+			if kw == "checks" {
+				// a postcondition that is checked against the body but never assumed at call sites (formats nobody relies on)
+				c.CheckOnly = true
+				c.Kind = "ensures"
+				cur.Ensures = append(cur.Ensures, c)
+			}
 			if kw == "trusted_ensures" {
 				c.Assumed = true
 				c.Kind = "ensures"
@@ -340,6 +348,11 @@ func parseSpecFile(path string, goFile bool, defaultPkg string) (*SpecFile, erro
 			if cur.Extern && !extern {
 				sf.Trusted = append(sf.Trusted, "  "+cur.Header+" :: nopanic")
 			}
+		case "trusted_nopanic":
+			// callers assume the function does not panic; NOT checked against the body (listed in the trusted base)
+			cur.NoPanic = true
+			cur.NoPanicTrusted = true
+			sf.Trusted = append(sf.Trusted, "  "+cur.Header+" :: "+cl)
 		case "maypanic":
 			cur.NoPanic = false
 		case "panics_only_if":
